@@ -1298,6 +1298,11 @@ func (it item) cost(thorough bool) float64 {
 		return 0.12
 	case "F":
 		return 0.02
+	case "T":
+		if thorough {
+			return 0.12
+		}
+		return 0.06
 	}
 	return 0.01
 }
@@ -1462,6 +1467,21 @@ func main() {
 		}
 	}
 
+	// layer T (attrs.go): appended behind layers F-N for the same reason
+	menuT := []string{valuesAll[2], valuesAll[5], valuesAll[0]}
+	keysT := keysB
+	if !quick {
+		menuT = []string{valuesAll[2], valuesAll[5], valuesAll[0], valuesAll[1], longValue(300)}
+		keysT = []int{0, 1, 2, 3, 4, 5}
+	}
+	for _, ki := range keysT {
+		for mask := 0; mask < 8; mask++ {
+			for ni := range names {
+				items = append(items, item{Layer: "T", Ki: ki, Mask: mask, Ni: ni})
+			}
+		}
+	}
+
 	if r.IsWorker() {
 		// the live heap of a worker is tiny and every exchange leaves a few KiB of garbage:
 		// with the default GOGC more than a third of the CPU went into back-to-back GC cycles
@@ -1506,6 +1526,8 @@ func main() {
 				layerL(l, it.Ki, it.Ni, it.Len, it.ExcMode, it.Ki == 4 && it.Ni == 1 && it.Len == 4097 && it.ExcMode == 0)
 			case "K":
 				layerK(l, it.Ki, it.Mask, it.Next, it.Ki == 0 && it.Mask == 2 && it.Next == nextSkipPath)
+			case "T":
+				layerT(l, it.Ki, it.Mask, it.Ni, menuT, it.Ki == 2 && it.Mask == 4 && it.Ni == 1)
 			case "F":
 				layerF(l, it.Ki, it.Mask, it.Rec, it.Cause, it.Ki == 2 && it.Mask == 1 && it.Rec == 1 && it.Cause == 0)
 			}
@@ -1561,7 +1583,8 @@ func main() {
 	if len(r.P.Violations) == 0 && len(r.P.Caps) == 0 {
 		for _, k := range []string{"replay_ok", "tamper_rejected_or_same", "altered_same_bytes_accepted", "excepted_req_pass", "excepted_resp_pass", "encrypted_resp", "otherkey_rejected", "multi_cookie_exchanges", "dup_name_requests", "ends_exchanges", "ends_error_status_encrypted", "ends_error_returned_encrypted",
 			"names_exchanges", "names_rel_listed", "names_rel_case-variant-of-listed", "names_rel_one-byte-off-listed", "names_rel_prefix-of-listed", "names_rel_extends-listed", "names_rel_ends-with-listed", "names_rel_unrelated",
-			"many_exchanges", "long_exchanges", "kind_exchanges", "next_true_requests", "next_false_processed", "encfail_exchanges", "encfail_no_response", "encfail_next_exchange_ok"} {
+			"many_exchanges", "long_exchanges", "kind_exchanges", "next_true_requests", "next_false_processed", "encfail_exchanges", "encfail_no_response", "encfail_next_exchange_ok",
+			"attr_exchanges", "attr_nonempty_value_with_removal_attributes", "attr_replay_ok"} {
 			if c[k] == 0 {
 				core.Fatal("vacuous exploration: mechanism counter %s is 0", k)
 			}
@@ -1576,13 +1599,14 @@ func main() {
 		Coverage: map[string]any{
 			"evaluations":         c["evaluations"],
 			"distinct_nontrivial": c["nontrivial"],
-			"rule": fmt.Sprintf("every request/response exchange with the real middleware over ServeConn is one evaluation. Layer A: %d keys x %d names x %d values x 8 Except subsets (the 4 KiB value of the thorough tier: 3 Except sets), one cookie: issue, replay, then EVERY substitution of every character by each of the %d characters of base64+'='+'-'+' ', every prefix and suffix truncation, every one-character insertion at every position, the ciphertext of each other key, of each other value, of each other name, and the plaintext. Layer B: %d keys x all ordered name tuples of size 2 (value menu %d^2) and 3 (value menu %d^3) x 8 Except subsets: issue, replay in one / in separate Cookie headers while the handler sets cookies again, then a fixed family of ~85 manipulations on each position with the others valid, then all non-excepted positions manipulated at once. Layer C: %d invalid keys. Layer D: duplicate-name requests. Layer E (how the exchange ends): %d keys x 8 Except subsets x {default, custom ErrorHandler} x {app.Use chain, route-level handler chain} x %d handler ends (return nil with/without body, 201, redirect, SendStatus 403/502, *fiber.Error 401/503, plain error, body then *fiber.Error, wrapped *fiber.Error, c.Next() with no further route, no route at all, panic behind the recover middleware) x {downstream middleware propagates / answers the error} x cookie placements over 4 slots (downstream middleware before/after c.Next(), final handler before/after its response-writing call): one cookie, two cookies over all slot pairs, one name set twice, x %d value rotations; every exchange also carries one validly issued request cookie; the application without the middleware must answer with the planned status and cookies (self-check). Layer R (related keys): every ordered pair of 11 mutually related keys (a 16-byte key and its zero-padded 24- and 32-byte extensions, the leading 16/24 bytes of a 32-byte key, one bit flipped, bytes rotated, all-zero keys of the three lengths) used by two middleware instances of one process in both orders of first use x 3 values: a cookie issued under one must reach the handler behind the other empty, and each instance still round-trips its own cookies. Concurrent part: every ordered pair of 4 requests (with valid cookies, without, with a forged cookie; also a request with itself) in flight on ONE middleware instance, all interleavings with <=2 (thorough <=3) preemptions at the Encryptor/Decryptor/handler seams and at any shimmed sync operation of the middleware; each response, with its Set-Cookie values decrypted, must equal the response of the same request served alone (counters cc_executions, cc_points). Layer N (names vs Except): %d keys x %d Except lists (empty; one entry; the entry in front of / amid / behind 8 unrelated names; an entry twice; all names in three orders) built from %d related names (case variants, prefixes, extensions, one byte off, 64-byte names): all names in one exchange and every name alone, each issued, replayed and forged (truncated, substituted, other key, plaintext; for listed names: passed through); a name is excepted iff it is listed exactly. Layer M (many cookies): %d keys x %v cookies per request and response x Except {none, two of them}, forgeries at the first, second, middle, last-but-one and last position and at all positions at once. Layer L (long values): %d keys x %d names x values of %v bytes x Except {none, this name, the others}: issue, replay, the ~85 reduced manipulations, other key, plaintext; next to a short cookie in both orders. Layer K (kind of request, Config.Next): %d keys x %d Except subsets x Config.Next {nil, always false, true under /skip} x 7 methods x 3 spellings of the Cookie field name x 2 separators, three cookies issued, replayed and forged per request kind; a request Next answers true for precedes every judged one (itself outside the statement: outcome only). Layer F (the Encryptor fails): %d keys x 8 Except subsets x {entropy source returns an error, custom Encryptor returns an error} x {recover middleware in front, nothing in front} x 11 cookie sets of 1-3 cookies x the failing encryption (1st..nth, once / from then on): no plaintext of a non-excepted cookie in whatever reaches the wire, and the next exchange on the same application issues and accepts cookies as usual. Non-trivial = an exchange whose request carries at least one cookie that is not an unmodified issued one, or whose response carries a non-excepted non-empty cookie (counted in the loop).",
+			"rule": fmt.Sprintf("every request/response exchange with the real middleware over ServeConn is one evaluation. Layer A: %d keys x %d names x %d values x 8 Except subsets (the 4 KiB value of the thorough tier: 3 Except sets), one cookie: issue, replay, then EVERY substitution of every character by each of the %d characters of base64+'='+'-'+' ', every prefix and suffix truncation, every one-character insertion at every position, the ciphertext of each other key, of each other value, of each other name, and the plaintext. Layer B: %d keys x all ordered name tuples of size 2 (value menu %d^2) and 3 (value menu %d^3) x 8 Except subsets: issue, replay in one / in separate Cookie headers while the handler sets cookies again, then a fixed family of ~85 manipulations on each position with the others valid, then all non-excepted positions manipulated at once. Layer C: %d invalid keys. Layer D: duplicate-name requests. Layer E (how the exchange ends): %d keys x 8 Except subsets x {default, custom ErrorHandler} x {app.Use chain, route-level handler chain} x %d handler ends (return nil with/without body, 201, redirect, SendStatus 403/502, *fiber.Error 401/503, plain error, body then *fiber.Error, wrapped *fiber.Error, c.Next() with no further route, no route at all, panic behind the recover middleware) x {downstream middleware propagates / answers the error} x cookie placements over 4 slots (downstream middleware before/after c.Next(), final handler before/after its response-writing call): one cookie, two cookies over all slot pairs, one name set twice, x %d value rotations; every exchange also carries one validly issued request cookie; the application without the middleware must answer with the planned status and cookies (self-check). Layer R (related keys): every ordered pair of 11 mutually related keys (a 16-byte key and its zero-padded 24- and 32-byte extensions, the leading 16/24 bytes of a 32-byte key, one bit flipped, bytes rotated, all-zero keys of the three lengths) used by two middleware instances of one process in both orders of first use x 3 values: a cookie issued under one must reach the handler behind the other empty, and each instance still round-trips its own cookies. Concurrent part: every ordered pair of 4 requests (with valid cookies, without, with a forged cookie; also a request with itself) in flight on ONE middleware instance, all interleavings with <=2 (thorough <=3) preemptions at the Encryptor/Decryptor/handler seams and at any shimmed sync operation of the middleware; each response, with its Set-Cookie values decrypted, must equal the response of the same request served alone (counters cc_executions, cc_points). Layer N (names vs Except): %d keys x %d Except lists (empty; one entry; the entry in front of / amid / behind 8 unrelated names; an entry twice; all names in three orders) built from %d related names (case variants, prefixes, extensions, one byte off, 64-byte names): all names in one exchange and every name alone, each issued, replayed and forged (truncated, substituted, other key, plaintext; for listed names: passed through); a name is excepted iff it is listed exactly. Layer M (many cookies): %d keys x %v cookies per request and response x Except {none, two of them}, forgeries at the first, second, middle, last-but-one and last position and at all positions at once. Layer L (long values): %d keys x %d names x values of %v bytes x Except {none, this name, the others}: issue, replay, the ~85 reduced manipulations, other key, plaintext; next to a short cookie in both orders. Layer K (kind of request, Config.Next): %d keys x %d Except subsets x Config.Next {nil, always false, true under /skip} x 7 methods x 3 spellings of the Cookie field name x 2 separators, three cookies issued, replayed and forged per request kind; a request Next answers true for precedes every judged one (itself outside the statement: outcome only). Layer F (the Encryptor fails): %d keys x 8 Except subsets x {entropy source returns an error, custom Encryptor returns an error} x {recover middleware in front, nothing in front} x 11 cookie sets of 1-3 cookies x the failing encryption (1st..nth, once / from then on): no plaintext of a non-excepted cookie in whatever reaches the wire, and the next exchange on the same application issues and accepts cookies as usual. Layer T (attributes of the response cookies): %d keys x 8 Except subsets x %d names x Expires {none, fasthttp.CookieExpireDelete, one second after the epoch, one hour / one second before the request, one hour after it, end of 2099} x MaxAge %v x SessionOnly {false, true} x {no other attribute, Path+Domain+Secure+HTTPOnly+SameSite+Partitioned} x %d values (non-empty classes and the empty one) x set by {c.Cookie, c.Cookie with the value read from the request cookie, fasthttp Response.Header.SetCookie, c.ClearCookie(name) then c.Cookie}, one cookie per response; three cookies of different lifetimes in one response; one cookie re-set after c.ClearCookie() removed all request cookies; pure removals (c.ClearCookie(), c.ClearCookie(name...), c.Cookie then c.ClearCookie(name)); every request carries the validly issued cookies of all names; every non-excepted cookie on the wire must be ciphertext whatever its attributes, excepted ones byte-identical to the application without the middleware, and every non-empty issued value sent back must reach the handler as set. Non-trivial = an exchange whose request carries at least one cookie that is not an unmodified issued one, or whose response carries a non-excepted non-empty cookie (counted in the loop).",
 				len(keys), len(names), nv, len(mutAlpha), len(keysB), len(menu2), len(menu3), len(badKeys), len(keysB), len(ends), len(menuE),
-				len(keysB), nLists, len(relNames), len(keysB), manyK, len(keysB), len(names), longLens, len(keysB), len(masksK), len(keysB)),
+				len(keysB), nLists, len(relNames), len(keysB), manyK, len(keysB), len(names), longLens, len(keysB), len(masksK), len(keysB),
+				len(keysT), len(names), maxAges, len(menuT)),
 			"bounds": map[string]any{"keys": len(keys), "key_lengths": []int{16, 24, 32}, "names": names, "values": nv, "max_value_bytes": len(vals[nv-1]),
 				"except_subsets": 8, "cookies_per_exchange_max": 3, "handler_ends": len(ends), "cookie_slots": nSlots, "mutation_alphabet": mutAlpha, "work_items": len(items), "workers": nw,
 				"related_names": len(relNames), "except_lists": nLists, "cookies_per_request_many": manyK, "long_value_bytes": longLens,
-				"request_methods": kMethods, "config_next": nextName, "encryptor_failure_causes": causeName},
+				"request_methods": kMethods, "config_next": nextName, "encryptor_failure_causes": causeName, "response_cookie_attributes": tDims()},
 		},
 		Assumptions: []string{
 			"AES-GCM, crypto/rand replaced by a SHA-256 counter stream (unique nonces), encoding/base64 and fasthttp's request parsing are trusted",
